@@ -2,3 +2,33 @@ NOT_YET = {}
 add("C01", "exploration", "model-based property testing (proptest histories vs reference swarm model)",
     "Generated announce/scrape/clean histories are executed against aquatic_udp's TorrentMaps and an independent reference tracker; replies, the observable peer set and the statistics counters are compared after every step. Gives confidence over several hundred thousand to millions of histories that cross the inline<->heap switch, not a proof.",
     "Trusts the reference model (models.rs) as the reading of the property; storage is driven through its public API exactly as the socket/cleaning workers call it; RNG outcomes are sampled through seeded SmallRng.")
+add("C02", "exploration", "property testing with scripted-RNG enumeration (grid sweep) + seeded sampling vs reference membership model",
+    "Peer selection of all three trackers is run for enumerated shapes (size, limit, maximum, requester position, build pattern); for HTTP storage and the WS selection function every outcome of the two random offset draws is enumerated through a scripted RNG (exhaustive for swarm size <= 20 quick / 40 thorough); UDP and WS storage are sampled by seed. Each returned list is checked for soundness, distinctness, requester exclusion and the exact size rule.",
+    "Trusts the reference membership model; exhaustive claim limited to the `grid` sub-check and its size bound; UDP's SmallRng cannot be scripted (identical algorithm enumerated via HTTP).")
+add("C05", "exploration", "property testing of ConnectionValidator against a reference acceptance rule (boundary-biased times, bit-flip forgeries)",
+    "The real validator, with its clock set through a hook, is compared in both directions with the rule 'same canonical IP and t0+age>t1 and t0<=t1+60' on boundary-biased (age, t0, t1) and must reject every single-bit-altered id, ids for one-bit-different addresses, foreign-key ids and random ids.",
+    "Clock is set through verif_set_seconds_since_start; forgeries accepted are re-tried under two fresh keys so a 2^-32 MAC collision cannot raise an alarm; wire-level behaviour is C06's.")
+add("C07", "exploration", "model-based property testing (proptest histories vs reference swarm model, mock clock)",
+    "Generated announce/scrape/clean histories against aquatic_http's swarm storage (re-exported under feature verif) and the reference tracker, compared after every step incl. torrent count after each clean.",
+    "Trusts the reference model; storage reached through a feature-gated re-export; clean() driven by the thread-local mock clock.")
+add("C08", "exploration", "model-based property testing (stateful histories over connections/workers vs WebTorrent reference model)",
+    "Generated open/announce/scrape/close/clean histories over 3 socket workers with colliding connection ids and 3 shared peer ids against aquatic_ws's storage and model W; every produced message, its addressee, the counts and the stored entries are compared after every step.",
+    "A harness shim reproduces the socket worker's per-connection bookkeeping (validated end to end by C17); mock clock; trusts model W.")
+add("C09", "exploration", "model-based property testing (signalling-weighted histories vs WebTorrent reference model)",
+    "Same driver as C08 with offers/answers dominating: forwarded offers are checked by a validity predicate (count, distinct stored receivers, own connection, i-th content), answers are forwarded iff the model holds an unconsumed unexpired expectation.",
+    "Same shim and mock clock as C08; which receivers are chosen is left open (validity predicate).")
+add("C10", "exploration", "model-based property testing with boundary-time generators under a mock clock",
+    "Histories that place cleaning passes one second before, at and after live deadlines in inline and heap representations on all three storages, plus ValidUntil arithmetic under the mock clock.",
+    "Worker time sampling enters UDP/HTTP storage as the explicit valid_until argument; now+age < 2^32.")
+add("C11", "exploration", "property testing: generated list files/fault positions vs reference parser; storage histories with list swaps vs reference models",
+    "Reload sequences with decorated and faulty files (every fault kind at generated line positions, missing file) through update_access_list in all modes, decisions read through the shared list and a pre-existing worker cache; storage histories on all three trackers where the next clean must remove exactly the forbidden torrents.",
+    "Announce gating at the socket workers and SIGUSR1 delivery are covered by the e2e sub-check when present; at storage level forbidden announces are withheld by the harness.")
+add("C13", "exploration", "differential/round-trip property testing against an independent BEP 15 codec",
+    "write_bytes compared byte for byte with an independent encoder, parse_bytes of independently encoded datagrams compared field by field, parse(write(x)) == x, and every listed malformation (all truncation lengths, bad action/event/protocol id, port 0, empty/ragged hash list) against an independent acceptance rule.",
+    "Trusts codecs.rs as the transcription of BEP 15 (+ IPv6 18-byte peers).")
+add("C14", "exploration", "differential/round-trip property testing against an independent query writer, identifier decoder and canonical bencode codec",
+    "Requests round-trip through the library, are parsed from independently written query strings (shuffled order, unknown keys, raw/%XX/%xx bytes), identifiers are judged by a reference decoder in both directions, replies are byte-compared with an independent canonical bencode encoder and re-parsed.",
+    "Keys > 100 encoded chars, scrape `downloaded` != 0 and counts > i64::MAX are outside the domain.")
+add("C15", "exploration", "round-trip property testing + hand-built JSON against a reference identifier rule",
+    "Every message kind round-trips through text and binary frames for arbitrary SDP and ids; encoder output is inspected with serde_json; hand-built JSON with identifier strings of 0..40 chars in every id-bearing field is accepted iff exactly 20 chars <= U+00FF.",
+    "Hand-built JSON uses raw UTF-8 or \\u escapes (incl. surrogate pairs).")
